@@ -13,7 +13,7 @@ THEOREMS = ['Otel.C19.' + t for t in (
     'pattern_all', 'pattern_literal_iff', 'pattern_matches_iff_lang', 'exact_iff',
     'view_applies_iff_selectors_match', 'matchMeter_aswas_witness', 'findViews_spec',
     'view_stream_exported_partial', 'view_shadowed_witness', 'view_shapes_stream', 'view_shapes_stream_filter_partial',
-    'view_filter_ignored_witness', 'view_unit_irrelevant', 'unmatched_gets_type_default', 'default_aggregation_table',
+    'view_filter_ignored_witness', 'view_unit_irrelevant', 'histogram_defaults', 'unmatched_gets_type_default', 'default_aggregation_table',
     'exported_at_most_one',
     'configurator_first_match', 'configurator_default', 'disabled_scope_silent', 'others_unaffected',
     'same_identity_same_instance', 'instance_config_fixed')]
@@ -28,7 +28,7 @@ HARNESS_ENV = {'ASAN_OPTIONS': 'detect_leaks=0:abort_on_error=0:exitcode=99:allo
 H = 's_c19'
 RULE = ('validators: every byte value in first and in later position, lengths 0..300 with the boundaries 254/255/256 and 62/63/64, NUL and '
         '>=0x80 bytes, all in exact-size unterminated buffers; views: 1-4 registered views (type x pattern/exact/wildcard name x unit x meter '
-        'name/version/schema selectors x name/description/aggregation/attribute filter) against 1-4 instruments of all six ABI-v1 types, valid '
+        'name/version/schema selectors x name/description/aggregation (type and histogram boundaries)/attribute filter) against 1-4 instruments of all six ABI-v1 types, valid '
         'and invalid names/units, enabled and disabled meters, through a real MeterProvider and an explicitly collected reader; scope rules: '
         '0-4 configurator conditions (name/version/schema/prefix/any) and a default against 1-6 tracer/meter/logger requests with repeated '
         'identities, pointer identity of the returned objects. non-trivial = a non-empty name / at least one instrument / at least one request')
@@ -43,6 +43,9 @@ ITYPES = ['c', 'h', 'u', 'oc', 'og', 'ou']
 OBSERVABLE = {'oc', 'og', 'ou'}
 DEFAULT_AGG = {'c': 'sum', 'u': 'sum', 'oc': 'sum', 'ou': 'sum', 'h': 'hist', 'og': 'last'}
 AGGS = ['def', 'drop', 'hist', 'last', 'sum']
+DEFAULT_BOUNDS = [0, 5, 10, 25, 50, 75, 100, 250, 500, 750, 1000, 2500, 5000, 7500, 10000]
+BOUNDS = ['-', '-', '-', '10,200', '100', '101', '102,103', '1', '500', '0,5,10,25,50,75,100,250,500,750,1000,2500,5000,7500,10000',
+          '1,2,3,4,5,6,7,8,9,10,11,12,13,14,15,16,17,18,19,200', '99,100,101,102,103,104']
 NAME_RE = re.compile(rb'[A-Za-z][A-Za-z0-9_.\-/]{0,254}', re.S)
 
 
@@ -100,7 +103,8 @@ def expected_streams(line):
     for op in ops[1:]:
         if op[0] == 'v':
             views.append(dict(type=op[1], pat=unhx(op[2]), unit=unhx(op[3]), mn=unhx(op[4]), mv=unhx(op[5]), ms=unhx(op[6]),
-                              name=unhx(op[7]), desc=unhx(op[8]), agg=op[10], flt=op[11]))
+                              name=unhx(op[7]), desc=unhx(op[8]), agg=op[10], flt=op[11],
+                              bounds=None if op[12] == '-' else [int(x) for x in op[12].split(',')]))
         else:
             instrs.append(dict(type=op[1], name=unhx(op[3]), unit=unhx(op[4]), desc=unhx(op[5])))
     res = []
@@ -110,7 +114,7 @@ def expected_streams(line):
             continue
         matching = [v for v in views if v['type'] == i['type'] and pattern_matches(v['pat'], i['name']) and exact_matches(v['unit'], i['unit'])
                     and exact_matches(v['mn'], mn) and exact_matches(v['mv'], mv) and exact_matches(v['ms'], ms)]
-        shaped = matching or [dict(name=b'', desc=b'', agg='def', flt='*')]
+        shaped = matching or [dict(name=b'', desc=b'', agg='def', flt='*', bounds=None)]
         streams = []
         for v in shaped:
             agg = DEFAULT_AGG[i['type']] if v['agg'] == 'def' else v['agg']
@@ -121,6 +125,10 @@ def expected_streams(line):
             else:
                 allowed = set(v['flt'].split(','))
                 keys = [k for k in ('61', '62') if k in allowed]
+            if agg == 'hist':
+                # the view's configured bucket boundaries (else the defaults); the one measurement is counted in its bucket
+                bounds = v['bounds'] if v['bounds'] is not None else DEFAULT_BOUNDS
+                agg = 'hist' + (''.join(f':{b}' for b in bounds) if bounds != DEFAULT_BOUNDS else '') + f'@{sum(1 for b in bounds if b < 100 + idx)}'
             streams.append((hx(v['name'] or i['name']), hx(v['desc'] or i['desc']), hx(i['unit']), i['type'], agg, tuple(keys),
                             '-' if agg == 'drop' else str(100 + idx)))
         res.append((idx, i, matching, streams))
@@ -274,13 +282,18 @@ def corpus():
     for line in ('val2 name -', 'val2 unit ' + hx(b'a\x00'), 'val2 name ' + hx(b'abc'), 'val2 unit ' + hx(b'ms')):
         out.append(Case(line, 's_c19b', ('corpus', 'D62'), 'corpus'))
     # D13: a meter without version / schema is not matched by a selector that names one
-    c(f'mv m {hx(b"m")} - - 1 ; v c {hx(b"*")} - {hx(b"m")} {hx(b"2.0")} {hx(b"http://x")} {hx(b"renamed")} - - sum * ; i c l {hx(b"reqs")} - -', 'D13')
-    c(f'mv m {hx(b"m")} {hx(b"2.0")} {hx(b"http://x")} 1 ; v c {hx(b"*")} - {hx(b"m")} {hx(b"2.0")} {hx(b"http://x")} {hx(b"renamed")} - - sum * ; i c l {hx(b"reqs")} - -', 'D13')
+    c(f'mv m {hx(b"m")} - - 1 ; v c {hx(b"*")} - {hx(b"m")} {hx(b"2.0")} {hx(b"http://x")} {hx(b"renamed")} - - sum * - ; i c l {hx(b"reqs")} - -', 'D13')
+    c(f'mv m {hx(b"m")} {hx(b"2.0")} {hx(b"http://x")} 1 ; v c {hx(b"*")} - {hx(b"m")} {hx(b"2.0")} {hx(b"http://x")} {hx(b"renamed")} - - sum * - ; i c l {hx(b"reqs")} - -', 'D13')
     # D20: a disabled logger is found again
     c(f'sc l d 1 ; r name {hx(b"off")} 0 ; g {hx(b"off")} - - {hx(b"ln")} - ; g {hx(b"off")} - - {hx(b"ln")} - ; g {hx(b"on")} - - {hx(b"ln")} -', 'D20')
+    # D63: an observable instrument under a histogram view with explicit boundaries (more buckets than the default: out-of-bounds
+    # read in the merge; fewer: the measurement is counted in no bucket)
+    for it in ('oc', 'og', 'ou'):
+        c(f'mv m {hx(b"m")} - - 1 ; v {it} {hx(b"*")} - - - - - - - hist * 1,2,3,4,5,6,7,8,9,10,11,12,13,14,15,16,17,18,19,200 ; i {it} l {hx(b"x")} - -', 'D63')
+        c(f'mv m {hx(b"m")} - - 1 ; v {it} {hx(b"*")} - - - - - - - hist * 10,200 ; i {it} d {hx(b"x")} - -', 'D63')
     # D09 / D22 (findings)
-    c(f'mv m {hx(b"m")} - - 1 ; v c {hx(b"*")} - - - - {hx(b"first")} - - sum * ; v c {hx(b"reqs")} - - - - {hx(b"second")} - - sum * ; i c l {hx(b"reqs")} - -', 'D09')
-    c(f'mv m {hx(b"m")} - - 1 ; v oc {hx(b"*")} - - - - - - - def {hx(b"a")} ; i oc l {hx(b"obs")} - -', 'D22')
+    c(f'mv m {hx(b"m")} - - 1 ; v c {hx(b"*")} - - - - {hx(b"first")} - - sum * - ; v c {hx(b"reqs")} - - - - {hx(b"second")} - - sum * - ; i c l {hx(b"reqs")} - -', 'D09')
+    c(f'mv m {hx(b"m")} - - 1 ; v oc {hx(b"*")} - - - - - - - def {hx(b"a")} - ; i oc l {hx(b"obs")} - -', 'D22')
     return out
 
 
@@ -377,7 +390,8 @@ def rand_view(rng, meter, target=None):
     vunit = rng.choice([b'', b'', b'vu'])
     agg = rng.choice(AGGS + ['def', 'def'])
     flt = rng.choice(FILTERS)
-    return f'v {it} {hx(pat)} {hx(unit)} {hx(mn)} {hx(mv)} {hx(ms)} {hx(vname)} {hx(vdesc)} {hx(vunit)} {agg} {flt}'
+    hb = rng.choice(BOUNDS)
+    return f'v {it} {hx(pat)} {hx(unit)} {hx(mn)} {hx(mv)} {hx(ms)} {hx(vname)} {hx(vdesc)} {hx(vunit)} {agg} {flt} {hb}'
 
 
 def gen_mv(rng, big):
@@ -417,10 +431,12 @@ def gen_mv(rng, big):
     for it in ITYPES:
         for agg in AGGS:
             for flt in ('*', 'e', '61'):
-                out.append(C(f'mv m {hx(b"m")} - - 1 ; v {it} {hx(b"*")} - - - - - - - {agg} {flt} ; i {it} l {hx(b"x")} - -', 'mv', 'type-x-agg-x-filter'))
-                out.append(C(f'mv m {hx(b"m")} - - 1 ; v {it} {hx(b"*")} - - - - {hx(b"vn")} {hx(b"vd")} {hx(b"vu")} {agg} {flt} ; i {it} d {hx(b"x")} {hx(b"ms")} {hx(b"d")}', 'mv', 'type-x-agg-x-filter'))
+                out.append(C(f'mv m {hx(b"m")} - - 1 ; v {it} {hx(b"*")} - - - - - - - {agg} {flt} - ; i {it} l {hx(b"x")} - -', 'mv', 'type-x-agg-x-filter'))
+                out.append(C(f'mv m {hx(b"m")} - - 1 ; v {it} {hx(b"*")} - - - - {hx(b"vn")} {hx(b"vd")} {hx(b"vu")} {agg} {flt} - ; i {it} d {hx(b"x")} {hx(b"ms")} {hx(b"d")}', 'mv', 'type-x-agg-x-filter'))
+            for hb in BOUNDS[3:]:
+                out.append(C(f'mv m {hx(b"m")} - - 1 ; v {it} {hx(b"*")} - - - - - - - {agg} * {hb} ; i {it} l {hx(b"x")} - - ; i {it} d {hx(b"y")} - -', 'mv', 'type-x-agg-x-bounds'))
         for it2 in ITYPES:
-            out.append(C(f'mv m {hx(b"m")} - - 1 ; v {it} {hx(b"*")} - - - - {hx(b"vn")} - - def * ; i {it2} l {hx(b"x")} - -', 'mv', 'type-x-type'))
+            out.append(C(f'mv m {hx(b"m")} - - 1 ; v {it} {hx(b"*")} - - - - {hx(b"vn")} - - def * - ; i {it2} l {hx(b"x")} - -', 'mv', 'type-x-type'))
     return out
 
 
@@ -472,7 +488,7 @@ LEVEL_TEXT = ('Lean 4 theorems over executable models of instrument_metadata_val
 LEVEL_NOTE = ('Trusted: Lean kernel; axioms propext/Quot.sound/Classical.choice at most; tools/gen_c19.py; harness and generators; std::regex. '
               'Partial: (D09) of several views matching one instrument only the last registered one is exported and (D22) a view\'s attribute '
               'filter is ignored for observable instruments - modelled as the code is, proved as *_partial theorems with kernel-checked '
-              'witnesses, reported as known findings; name patterns only for the fragment literal/"."/"x*"/".*"; histogram boundary '
-              'configuration of a view is not modelled; out-of-bounds reads are excluded by sanitizer runs on exact-size buffers, not by a theorem.')
+              'witnesses, reported as known findings; name patterns only for the fragment literal/"."/"x*"/".*"; histogram boundaries only strictly increasing integer lists; '
+              'out-of-bounds reads are excluded by sanitizer runs on exact-size buffers, not by a theorem.')
 DESIGN_REF = 'DESIGN.md section 4, C19'
 TECHNIQUE = 'Lean 4 proof + differential correspondence'
